@@ -14,7 +14,7 @@ ID = "C04"
 LEVEL = "exploration"
 TECHNIQUE = "metamorphic non-interference: Hypothesis-generated partially observed screens and twins that differ only behind the mask are pushed through train -> distances -> scores -> selection (API and CLI) and compared bitwise; training-set and refusal oracles per model"
 RULE = (
-    "partially observed arity-2 screens (6..20 rows, >=1 observed and >=2 unobserved plates, single-agent rows present; for the interaction model the observed part "
+    "partially observed arity-2 screens (6..20 rows, >=1 observed and 1..4 unobserved plates whose names sort before or after the observed ones, single-agent rows present; for the interaction model the observed part "
     "holds a single-agent row for every (sample, treatment) of the screen); twin = same screen with the masked values replaced by values from {0,1,-3.5,NaN,1e300} U floats; "
     "model in {SparseDrugCombo, SparseDrugComboInteraction}, D 1..3, burn-in 0..2, 3..5 samples, 1..2 chains, n_chunks 1..4 for distances and scores, batch of 0..2 "
     "selected plates, scorer in {GaussianDBAL, Size, Random}; 1 in 5 cases through the CLIs on files. Non-trivial = twin differs in >=1 masked value and >=1 plate is scored. "
@@ -42,7 +42,9 @@ def _case(draw):
     model = draw(st.sampled_from(["SparseDrugCombo", "SparseDrugCombo", "SparseDrugComboInteraction"]))
     ns = draw(st.integers(1, 3))
     nt = draw(st.integers(2, 4))
-    n_un = draw(st.integers(2, 4))
+    n_un = draw(st.sampled_from([1, 1, 2, 3, 4]))
+    # the masked plates' names sort before or after the observed ones (plate ids follow the sorted names)
+    un = "a_un%d" if draw(st.booleans()) else "un%d"
     val = st.floats(min_value=0.05, max_value=0.95)
     if model == "SparseDrugCombo":  # values the documented clip acts on
         val = st.one_of(val, val, st.sampled_from([0.0, 1.0, 1.2, 0.005, 0.995]))
@@ -63,13 +65,13 @@ def _case(draw):
             b = (a + 1) % nt
         if draw(st.booleans()):
             a, b = b, a
-        plate = draw(st.sampled_from(["obs0", "obs1"] + ["un%d" % i for i in range(n_un)] * 2))
+        plate = draw(st.sampled_from(["obs0", "obs1"] + [un % i for i in range(n_un)] * 2))
         rows.append((s, [a, b], plate, draw(val)))
-    # make sure >= 2 unobserved plates and >= 1 observed plate exist
-    for i in range(2):
+    # make sure every unobserved plate and >= 1 observed plate exist
+    for i in range(n_un):
         s = draw(st.integers(0, ns - 1))
         a = draw(st.integers(0, nt - 1))
-        rows.append((s, [a, (a + 1) % nt], "un%d" % i, draw(val)))
+        rows.append((s, [a, (a + 1) % nt], un % i, draw(val)))
     if not any(r[2].startswith("obs") for r in rows):
         rows.append((0, [0, 1 % nt if nt > 1 else -1], "obs0", draw(val)))
     if draw(st.integers(0, 4)) == 0:
